@@ -262,6 +262,25 @@ def contract(rng, deep):
                             break
             except Exception as ex:
                 fail(path, 'order', 'shuffled points raised %s: %s' % (type(ex).__name__, str(ex)[:100]), case)
+            # Mader's cell width comes from the first and the last point of the request (documented): with those two kept
+            # in place the width is the same and every record must still belong to its point.  The interior is permuted by a
+            # 3-cycle (a sort-and-restore that applies the permutation twice is right for swaps and wrong for cycles: seeded C05-9)
+            if path.split(':')[1] == 'Mader':
+                try:
+                    P6 = np.sort(e.points(rng, 7))
+                    q = [0, 2, 3, 1, 5, 4, 6]
+                    r_sorted = s(P6, t)
+                    r_perm = s(P6[q], t)
+                    count('order')
+                    for nm in r_sorted.dtype.names:
+                        a_, b_ = np.asarray(r_sorted[nm])[q], np.asarray(r_perm[nm])
+                        if a_.dtype.kind in 'fc' and not np.all(np.isclose(a_, b_, rtol=1e-12, atol=0.0, equal_nan=True)):
+                            fail(path, 'order-values', 'field %s: with the end points of the request kept in place, the value at a point '
+                                                       'changes with the order of the interior points' % nm,
+                                 dict(case, points=P6[q].tolist()))
+                            break
+                except Exception as ex:
+                    fail(path, 'order', 'permuted interior points raised %s: %s' % (type(ex).__name__, str(ex)[:100]), case)
             # csv round trip (also at times far from the catalogue's: a field whose dtype or precision depends on
             # the time — seeded C05-6 switched to extended precision at early times — does not survive the round trip)
             def csv_check(sol, n, case):
